@@ -21,7 +21,7 @@ LEVEL_NOTE = "trusted: generator, VerifyScript"
 
 
 def runs(tier, seed):
-    n = 30 if tier == "quick" else 600
+    n = 30 if tier == "quick" else 320
     return [Run("mempoolsim", cases=n, params={"class": "testaccept", "mon": "testaccept"}, timeout=3000 if tier == "quick" else 14000)]
 
 
